@@ -2562,3 +2562,1015 @@ TWINS += [
     {"name": "size-line-read-outside-the-try", "edits": [(S, _RD_TRY, '        line = self._rfile.readline().decode("latin1")\n\n        try:\n' + _RD_INT)]},
     {"name": "size-line-text-in-a-local", "edits": [(S, _RD_INT, "            digits = line.strip()\n            _len = int(digits, 16)\n")]},
 ]
+
+# ---- round 6 (stress): refactorings in ordinary maintainer style written by authors who had not seen the checker ----
+_STRESS_TWINS = [
+    {'name': 'stress-1-reader-locals-renamed-text-hoisted', 'edits': [('serving.py',
+  '    def read_chunk_len(self) -> int:\n'
+  '        try:\n'
+  '            line = self._rfile.readline().decode("latin1")\n'
+  '            _len = int(line.strip(), 16)\n'
+  '        except ValueError as e:\n'
+  '            raise OSError("Invalid chunk header") from e\n'
+  '        if _len < 0:\n'
+  '            raise OSError("Negative chunk length not allowed")\n'
+  '        return _len\n'
+  '\n'
+  '    def readinto(self, buf: bytearray) -> int:  # type: ignore\n',
+  '    def read_chunk_len(self) -> int:\n'
+  '        try:\n'
+  '            header = self._rfile.readline().decode("latin1")\n'
+  '            hex_size = header.strip()\n'
+  '            chunk_size = int(hex_size, 16)\n'
+  '        except ValueError as e:\n'
+  '            raise OSError("Invalid chunk header") from e\n'
+  '        if chunk_size < 0:\n'
+  '            raise OSError("Negative chunk length not allowed")\n'
+  '        return chunk_size\n'
+  '\n'
+  '    def readinto(self, buf: bytearray) -> int:  # type: ignore\n')]},
+    {'name': 'stress-2-reader-try-else-nonnegative-returned', 'edits': [('serving.py',
+  '        except ValueError as e:\n'
+  '            raise OSError("Invalid chunk header") from e\n'
+  '        if _len < 0:\n'
+  '            raise OSError("Negative chunk length not allowed")\n'
+  '        return _len\n'
+  '\n'
+  '    def readinto(self, buf: bytearray) -> int:  # type: ignore\n',
+  '        except ValueError as e:\n'
+  '            raise OSError("Invalid chunk header") from e\n'
+  '        else:\n'
+  '            if _len >= 0:\n'
+  '                return _len\n'
+  '        raise OSError("Negative chunk length not allowed")\n'
+  '\n'
+  '    def readinto(self, buf: bytearray) -> int:  # type: ignore\n')]},
+    {'name': 'stress-3-reader-module-level-size-parser', 'edits': [('serving.py',
+  '\n\nclass DechunkedInput(io.RawIOBase):\n    """An input stream that handles Transfer-Encoding \'chunked\'"""\n',
+  '\n'
+  '\n'
+  'def _parse_chunk_size(line: bytes) -> int:\n'
+  '    """Parse the hexadecimal size from the first line of a chunk. Raises\n'
+  '    ``ValueError`` if the line is not a hexadecimal number.\n'
+  '    """\n'
+  '    return int(line.decode("latin-1").strip(), 16)\n'
+  '\n'
+  '\n'
+  'class DechunkedInput(io.RawIOBase):\n'
+  '    """An input stream that handles Transfer-Encoding \'chunked\'"""\n'),
+ ('serving.py',
+  '    def read_chunk_len(self) -> int:\n        try:\n            line = self._rfile.readline().decode("latin1")\n            _len = int(line.strip(), 16)\n        except ValueError as e:\n            raise OSError("Invalid chunk header") from e\n',
+  '    def read_chunk_len(self) -> int:\n        try:\n            _len = _parse_chunk_size(self._rfile.readline())\n        except ValueError as e:\n            raise OSError("Invalid chunk header") from e\n')]},
+    {'name': 'stress-4-readinto-size-hoisted-single-min', 'edits': [('serving.py',
+  '    def readinto(self, buf: bytearray) -> int:  # type: ignore\n        read = 0\n        while not self._done and read < len(buf):\n            if self._len == 0:\n                # This is the first chunk or we fully consumed the previous\n',
+  '    def readinto(self, buf: bytearray) -> int:  # type: ignore\n'
+  '        read = 0\n'
+  '        size = len(buf)\n'
+  '        while not self._done and read < size:\n'
+  '            if self._len == 0:\n'
+  '                # This is the first chunk or we fully consumed the previous\n'),
+ ('serving.py',
+  '                # There is data (left) in this chunk, so append it to the\n'
+  '                # buffer. If this operation fully consumes the chunk, this will\n'
+  '                # reset self._len to 0.\n'
+  '                n = min(len(buf), self._len)\n'
+  '\n'
+  '                # If (read + chunk size) becomes more than len(buf), buf will\n'
+  '                # grow beyond the original size and read more data than\n'
+  '                # required. So only read as much data as can fit in buf.\n'
+  '                if read + n > len(buf):\n'
+  '                    n = len(buf) - read\n'
+  '\n'
+  '                data = self._rfile.read(n)\n'
+  '\n',
+  '                # There is data (left) in this chunk, so append it to the\n'
+  '                # buffer. If this operation fully consumes the chunk, this will\n'
+  '                # reset self._len to 0. If (read + chunk size) becomes more\n'
+  '                # than len(buf), buf will grow beyond the original size and\n'
+  '                # read more data than required. So only read as much data as\n'
+  '                # can fit in buf.\n'
+  '                n = min(size - read, self._len)\n'
+  '                data = self._rfile.read(n)\n'
+  '\n')]},
+    {'name': 'stress-5-readinto-terminator-constant-and-method', 'edits': [('serving.py',
+  '\n\nclass DechunkedInput(io.RawIOBase):\n    """An input stream that handles Transfer-Encoding \'chunked\'"""\n',
+  '\n\n# Line endings accepted after the data of a chunk.\n_CHUNK_TERMINATORS = (b"\\n", b"\\r\\n", b"\\r")\n\n\nclass DechunkedInput(io.RawIOBase):\n    """An input stream that handles Transfer-Encoding \'chunked\'"""\n'),
+ ('serving.py',
+  '                # but there is still a final newline that should be consumed\n'
+  '                self._done = True\n'
+  '\n'
+  '            if self._len > 0:\n'
+  '                # There is data (left) in this chunk, so append it to the\n'
+  '                # buffer. If this operation fully consumes the chunk, this will\n',
+  '                # but there is still a final newline that should be consumed\n'
+  '                self._done = True\n'
+  '            elif self._len > 0:\n'
+  '                # There is data (left) in this chunk, so append it to the\n'
+  '                # buffer. If this operation fully consumes the chunk, this will\n'),
+ ('serving.py',
+  '                # Skip the terminating newline of a chunk that has been fully\n'
+  '                # consumed. This also applies to the 0-sized final chunk\n'
+  '                terminator = self._rfile.readline()\n'
+  '                if terminator not in (b"\\n", b"\\r\\n", b"\\r"):\n'
+  '                    raise OSError("Missing chunk terminating newline")\n'
+  '\n'
+  '        return read\n'
+  '\n'
+  '\n',
+  '                # Skip the terminating newline of a chunk that has been fully\n'
+  '                # consumed. This also applies to the 0-sized final chunk\n'
+  '                self._skip_terminator()\n'
+  '\n'
+  '        return read\n'
+  '\n'
+  '    def _skip_terminator(self) -> None:\n'
+  '        if self._rfile.readline() not in _CHUNK_TERMINATORS:\n'
+  '            raise OSError("Missing chunk terminating newline")\n'
+  '\n'
+  '\n')]},
+    {'name': 'stress-6-write-status-split-by-length-tuple-latch', 'edits': [('serving.py',
+  '            assert headers_set is not None, "write() before start_response"\n'
+  '            if status_sent is None:\n'
+  '                status_sent = status_set\n'
+  '                headers_sent = headers_set\n'
+  '                try:\n'
+  '                    code_str, msg = status_sent.split(None, 1)\n'
+  '                except ValueError:\n'
+  '                    code_str, msg = status_sent, ""\n'
+  '                code = int(code_str)\n'
+  '                self.send_response(code, msg)\n',
+  '            assert headers_set is not None, "write() before start_response"\n'
+  '            if status_sent is None:\n'
+  '                status_sent, headers_sent = status_set, headers_set\n'
+  '                status_parts = status_sent.split(None, 1)\n'
+  '\n'
+  '                if len(status_parts) == 2:\n'
+  '                    code_str, msg = status_parts\n'
+  '                else:\n'
+  '                    code_str, msg = status_sent, ""\n'
+  '\n'
+  '                code = int(code_str)\n'
+  '                self.send_response(code, msg)\n')]},
+    {'name': 'stress-7-write-chunk-test-de-morgan', 'edits': [('serving.py',
+  '                # https://httpwg.org/specs/rfc7230.html#rfc.section.3.3.1\n'
+  '                if (\n'
+  '                    not (\n'
+  '                        "content-length" in header_keys\n'
+  '                        or environ["REQUEST_METHOD"] == "HEAD"\n'
+  '                        or (100 <= code < 200)\n'
+  '                        or code in {204, 304}\n'
+  '                    )\n'
+  '                    and self.protocol_version >= "HTTP/1.1"\n'
+  '                ):\n',
+  '                # https://httpwg.org/specs/rfc7230.html#rfc.section.3.3.1\n'
+  '                if (\n'
+  '                    "content-length" not in header_keys\n'
+  '                    and environ["REQUEST_METHOD"] != "HEAD"\n'
+  '                    and (code < 100 or code >= 200)\n'
+  '                    and code not in {204, 304}\n'
+  '                    and self.protocol_version >= "HTTP/1.1"\n'
+  '                ):\n'),
+ ('serving.py',
+  '        def start_response(status, headers, exc_info=None):  # type: ignore\n            nonlocal status_set, headers_set\n            if exc_info:\n                try:\n                    if headers_sent:\n',
+  '        def start_response(status, headers, exc_info=None):  # type: ignore\n'
+  '            nonlocal status_set, headers_set\n'
+  '            if not exc_info:\n'
+  '                if headers_set:\n'
+  '                    raise AssertionError("Headers already set")\n'
+  '            else:\n'
+  '                try:\n'
+  '                    if headers_sent:\n'),
+ ('serving.py',
+  '                finally:\n                    exc_info = None\n            elif headers_set:\n                raise AssertionError("Headers already set")\n            status_set = status\n            headers_set = headers\n',
+  '                finally:\n                    exc_info = None\n            status_set = status\n            headers_set = headers\n')]},
+    {'name': 'stress-8-write-header-block-in-nested-helper', 'edits': [('serving.py',
+  '        chunk_response: bool = False\n'
+  '\n'
+  '        def write(data: bytes) -> None:\n'
+  '            nonlocal status_sent, headers_sent, chunk_response\n'
+  '            assert status_set is not None, "write() before start_response"\n'
+  '            assert headers_set is not None, "write() before start_response"\n'
+  '            if status_sent is None:\n'
+  '                status_sent = status_set\n'
+  '                headers_sent = headers_set\n'
+  '                try:\n'
+  '                    code_str, msg = status_sent.split(None, 1)\n'
+  '                except ValueError:\n'
+  '                    code_str, msg = status_sent, ""\n'
+  '                code = int(code_str)\n'
+  '                self.send_response(code, msg)\n'
+  '                header_keys = set()\n'
+  '                for key, value in headers_sent:\n'
+  '                    self.send_header(key, value)\n'
+  '                    header_keys.add(key.lower())\n'
+  '\n'
+  '                # Use chunked transfer encoding if there is no content\n'
+  '                # length. Do not use for 1xx and 204 responses. 304\n'
+  '                # responses and HEAD requests are also excluded, which\n'
+  '                # is the more conservative behavior and matches other\n'
+  '                # parts of the code.\n'
+  '                # https://httpwg.org/specs/rfc7230.html#rfc.section.3.3.1\n'
+  '                if (\n'
+  '                    not (\n'
+  '                        "content-length" in header_keys\n'
+  '                        or environ["REQUEST_METHOD"] == "HEAD"\n'
+  '                        or (100 <= code < 200)\n'
+  '                        or code in {204, 304}\n'
+  '                    )\n'
+  '                    and self.protocol_version >= "HTTP/1.1"\n'
+  '                ):\n'
+  '                    chunk_response = True\n'
+  '                    self.send_header("Transfer-Encoding", "chunked")\n'
+  '\n'
+  '                # Always close the connection. This disables HTTP/1.1\n'
+  "                # keep-alive connections. They aren't handled well by\n"
+  "                # Python's http.server because it doesn't know how to\n"
+  '                # drain the stream before the next request line.\n'
+  '                self.send_header("Connection", "close")\n'
+  '                self.end_headers()\n'
+  '\n'
+  '            assert isinstance(data, bytes), "applications must write bytes"\n'
+  '\n',
+  '        chunk_response: bool = False\n'
+  '\n'
+  '        def send_headers(status: str, headers: list[tuple[str, str]]) -> None:\n'
+  '            """Send the status line and the header block, once."""\n'
+  '            nonlocal status_sent, headers_sent, chunk_response\n'
+  '\n'
+  '            if status_sent is not None:\n'
+  '                return\n'
+  '\n'
+  '            status_sent = status\n'
+  '            headers_sent = headers\n'
+  '            try:\n'
+  '                code_str, msg = status_sent.split(None, 1)\n'
+  '            except ValueError:\n'
+  '                code_str, msg = status_sent, ""\n'
+  '            code = int(code_str)\n'
+  '            self.send_response(code, msg)\n'
+  '            header_keys = set()\n'
+  '            for key, value in headers_sent:\n'
+  '                self.send_header(key, value)\n'
+  '                header_keys.add(key.lower())\n'
+  '\n'
+  '            # Use chunked transfer encoding if there is no content\n'
+  '            # length. Do not use for 1xx and 204 responses. 304\n'
+  '            # responses and HEAD requests are also excluded, which\n'
+  '            # is the more conservative behavior and matches other\n'
+  '            # parts of the code.\n'
+  '            # https://httpwg.org/specs/rfc7230.html#rfc.section.3.3.1\n'
+  '            if (\n'
+  '                not (\n'
+  '                    "content-length" in header_keys\n'
+  '                    or environ["REQUEST_METHOD"] == "HEAD"\n'
+  '                    or (100 <= code < 200)\n'
+  '                    or code in {204, 304}\n'
+  '                )\n'
+  '                and self.protocol_version >= "HTTP/1.1"\n'
+  '            ):\n'
+  '                chunk_response = True\n'
+  '                self.send_header("Transfer-Encoding", "chunked")\n'
+  '\n'
+  '            # Always close the connection. This disables HTTP/1.1\n'
+  "            # keep-alive connections. They aren't handled well by\n"
+  "            # Python's http.server because it doesn't know how to\n"
+  '            # drain the stream before the next request line.\n'
+  '            self.send_header("Connection", "close")\n'
+  '            self.end_headers()\n'
+  '\n'
+  '        def write(data: bytes) -> None:\n'
+  '            assert status_set is not None, "write() before start_response"\n'
+  '            assert headers_set is not None, "write() before start_response"\n'
+  '            send_headers(status_set, headers_set)\n'
+  '            assert isinstance(data, bytes), "applications must write bytes"\n'
+  '\n')]},
+    {'name': 'stress-9-environ-header-dict-merged-by-update', 'edits': [('serving.py',
+  '        }\n\n        for key, value in self.headers.items():\n            if "_" in key:\n',
+  '        }\n'
+  '\n'
+  '        # None of the keys set above can clash with a key derived from a\n'
+  '        # header, collect those separately and add them in one go.\n'
+  '        header_environ: dict[str, str] = {}\n'
+  '\n'
+  '        for key, value in self.headers.items():\n'
+  '            if "_" in key:\n'),
+ ('serving.py',
+  '            if key not in ("CONTENT_TYPE", "CONTENT_LENGTH"):\n'
+  '                key = f"HTTP_{key}"\n'
+  '                if key in environ:\n'
+  '                    value = f"{environ[key]},{value}"\n'
+  '            environ[key] = value\n'
+  '\n'
+  '        if environ.get("HTTP_TRANSFER_ENCODING", "").strip().lower() == "chunked":\n',
+  '            if key not in ("CONTENT_TYPE", "CONTENT_LENGTH"):\n'
+  '                key = f"HTTP_{key}"\n'
+  '                if key in header_environ:\n'
+  '                    value = f"{header_environ[key]},{value}"\n'
+  '            header_environ[key] = value\n'
+  '\n'
+  '        environ.update(header_environ)\n'
+  '\n'
+  '        if environ.get("HTTP_TRANSFER_ENCODING", "").strip().lower() == "chunked":\n')]},
+    {'name': 'stress-10-environ-transfer-encoding-local-casefold-update', 'edits': [('serving.py',
+  '            environ[key] = value\n'
+  '\n'
+  '        if environ.get("HTTP_TRANSFER_ENCODING", "").strip().lower() == "chunked":\n'
+  '            environ["wsgi.input_terminated"] = True\n'
+  '            environ["wsgi.input"] = DechunkedInput(environ["wsgi.input"])\n'
+  '\n'
+  '        # Per RFC 2616, if the URL is absolute, use that as the host.\n',
+  '            environ[key] = value\n'
+  '\n'
+  '        transfer_encoding = environ.get("HTTP_TRANSFER_ENCODING", "")\n'
+  '\n'
+  '        if transfer_encoding.strip().casefold() == "chunked":\n'
+  '            environ.update(\n'
+  '                {\n'
+  '                    "wsgi.input_terminated": True,\n'
+  '                    "wsgi.input": DechunkedInput(environ["wsgi.input"]),\n'
+  '                }\n'
+  '            )\n'
+  '\n'
+  '        # Per RFC 2616, if the URL is absolute, use that as the host.\n')]},
+    {'name': 'stress-11-environ-scheme-netloc-tuple-path-conditional', 'edits': [('serving.py',
+  '    def make_environ(self) -> WSGIEnvironment:\n        request_url = urlsplit(self.path)\n        url_scheme = "http" if self.server.ssl_context is None else "https"\n\n        if not self.client_address:\n',
+  '    def make_environ(self) -> WSGIEnvironment:\n'
+  '        request_url = urlsplit(self.path)\n'
+  '        scheme, netloc = request_url.scheme, request_url.netloc\n'
+  '        url_scheme = "https" if self.server.ssl_context is not None else "http"\n'
+  '\n'
+  '        if not self.client_address:\n'),
+ ('serving.py',
+  '        # the first segment may have been incorrectly parsed as the\n'
+  '        # netloc, prepend it to the path again.\n'
+  '        if not request_url.scheme and request_url.netloc:\n'
+  '            path_info = f"/{request_url.netloc}{request_url.path}"\n'
+  '        else:\n'
+  '            path_info = request_url.path\n'
+  '\n'
+  '        path_info = unquote(path_info)\n'
+  '\n'
+  '        environ: WSGIEnvironment = {\n',
+  '        # the first segment may have been incorrectly parsed as the\n'
+  '        # netloc, prepend it to the path again.\n'
+  '        path_info = unquote(\n'
+  '            request_url.path\n'
+  '            if scheme or not netloc\n'
+  '            else f"/{netloc}{request_url.path}"\n'
+  '        )\n'
+  '\n'
+  '        environ: WSGIEnvironment = {\n'),
+ ('serving.py',
+  '        # Per RFC 2616, if the URL is absolute, use that as the host.\n'
+  '        # We\'re using "has a scheme" to indicate an absolute URL.\n'
+  '        if request_url.scheme and request_url.netloc:\n'
+  '            environ["HTTP_HOST"] = request_url.netloc\n'
+  '\n'
+  '        try:\n',
+  '        # Per RFC 2616, if the URL is absolute, use that as the host.\n        # We\'re using "has a scheme" to indicate an absolute URL.\n        if scheme and netloc:\n            environ["HTTP_HOST"] = netloc\n\n        try:\n')]},
+    {'name': 'stress-12-handle-and-server-init-guards-flipped', 'edits': [('serving.py',
+  '            self.connection_dropped(e)\n'
+  '        except Exception as e:\n'
+  '            if self.server.ssl_context is not None and is_ssl_error(e):\n'
+  '                self.log_error("SSL error occurred: %s", e)\n'
+  '            else:\n'
+  '                raise\n'
+  '\n'
+  '    def connection_dropped(\n',
+  '            self.connection_dropped(e)\n'
+  '        except Exception as e:\n'
+  '            if self.server.ssl_context is None or not is_ssl_error(e):\n'
+  '                raise\n'
+  '\n'
+  '            self.log_error("SSL error occurred: %s", e)\n'
+  '\n'
+  '    def connection_dropped(\n'),
+ ('serving.py',
+  '        fd: int | None = None,\n'
+  '    ) -> None:\n'
+  '        if handler is None:\n'
+  '            handler = WSGIRequestHandler\n'
+  '\n'
+  "        # If the handler doesn't directly set a protocol version and\n"
+  '        # thread or process workers are used, then allow chunked\n'
+  '        # responses and keep-alive connections by enabling HTTP/1.1.\n'
+  '        if "protocol_version" not in vars(handler) and (\n'
+  '            self.multithread or self.multiprocess\n'
+  '        ):\n'
+  '            handler.protocol_version = "HTTP/1.1"\n'
+  '\n'
+  '        self.host = host\n',
+  '        fd: int | None = None,\n'
+  '    ) -> None:\n'
+  '        handler = WSGIRequestHandler if handler is None else handler\n'
+  '\n'
+  "        # If the handler doesn't directly set a protocol version and\n"
+  '        # thread or process workers are used, then allow chunked\n'
+  '        # responses and keep-alive connections by enabling HTTP/1.1.\n'
+  '        if "protocol_version" not in vars(handler):\n'
+  '            if self.multithread or self.multiprocess:\n'
+  '                handler.protocol_version = "HTTP/1.1"\n'
+  '\n'
+  '        self.host = host\n')]},
+]
+
+
+def _stress_mut(name, expect, twin, old, new):
+    """the refactored shape `twin` with one more edit that breaks the property in that shape."""
+    tw = next(t_ for t_ in _STRESS_TWINS if t_["name"].startswith(twin))
+    assert sum(n_.count(old) for _, _, n_ in tw["edits"]) == 1, (name, old)
+    return {"name": name, "expect": expect, "edits": [(f_, o_, n_.replace(old, new)) for f_, o_, n_ in tw["edits"]]}
+
+
+TWINS += _STRESS_TWINS
+MUTANTS += [
+    _stress_mut("stress-2-try-else-admits-minus-one", "R19.3", "stress-2-", "if _len >= 0:", "if _len >= -1:"),
+    _stress_mut("stress-3-module-parser-reads-decimal", "R19.3", "stress-3-", '.strip(), 16)', '.strip(), 10)'),
+    _stress_mut("stress-3-module-parser-error-not-converted", "R19.3", "stress-3-", "_len = _parse_chunk_size(self._rfile.readline())\n        except ValueError as e:", "_len = _parse_chunk_size(self._rfile.readline())\n        except TypeError as e:"),
+    _stress_mut("stress-4-single-min-ignores-fill-position", "R19.3", "stress-4-", "n = min(size - read, self._len)", "n = min(size, self._len)"),
+    _stress_mut("stress-5-terminator-constant-admits-empty-line", "R19.3", "stress-5-", '_CHUNK_TERMINATORS = (b"\\n", b"\\r\\n", b"\\r")', '_CHUNK_TERMINATORS = (b"\\n", b"\\r\\n", b"\\r", b"")'),
+    _stress_mut("stress-6-tuple-latch-left-open", "R19.2", "stress-6-", "status_sent, headers_sent = status_set, headers_set", "status_sent, headers_sent = None, headers_set"),
+    _stress_mut("stress-6-status-code-from-second-token", "R19.2", "stress-6-", "code_str, msg = status_parts\n", "msg, code_str = status_parts\n"),
+    _stress_mut("stress-7-de-morgan-admits-199", "R19.1", "stress-7-", "(code < 100 or code >= 200)", "(code < 100 or code >= 199)"),
+    _stress_mut("stress-7-de-morgan-or-for-and", "R19.1", "stress-7-", "and (code < 100 or code >= 200)\n", "or (code < 100 or code >= 200)\n"),
+    _stress_mut("stress-8-nested-helper-latch-on-header-list", "R19.2", "stress-8-", "if status_sent is not None:\n                return\n", "if headers_sent:\n                return\n"),
+    _stress_mut("stress-8-nested-helper-chunks-1xx", "R19.1", "stress-8-", "or (100 <= code < 200)\n", "or (100 < code < 200)\n"),
+    _stress_mut("stress-9-header-dict-never-merged", "R19.4", "stress-9-", "\n        environ.update(header_environ)\n", "\n"),
+    _stress_mut("stress-10-casefolded-value-compared-with-capital", "R19.4", "stress-10-", '.casefold() == "chunked"', '.casefold() == "Chunked"'),
+    _stress_mut("stress-11-netloc-dropped-without-scheme", "R19.4", "stress-11-", "if scheme or not netloc\n", "if not scheme or not netloc\n"),
+]
+
+# own variants of the shapes accepted in round 6
+_STRESS_OWN = [
+    {'name': 'own-reader-multi-statement-parser-method', 'edits': [('serving.py',
+  '        return True\n'
+  '\n'
+  '    def read_chunk_len(self) -> int:\n'
+  '        try:\n'
+  '            line = self._rfile.readline().decode("latin1")\n'
+  '            _len = int(line.strip(), 16)\n'
+  '        except ValueError as e:\n'
+  '            raise OSError("Invalid chunk header") from e\n',
+  '        return True\n'
+  '\n'
+  '    def _parse_size(self, line: bytes) -> int:\n'
+  '        text = line.decode("latin1")\n'
+  '        return int(text.strip(), 16)\n'
+  '\n'
+  '    def read_chunk_len(self) -> int:\n'
+  '        try:\n'
+  '            _len = self._parse_size(self._rfile.readline())\n'
+  '        except ValueError as e:\n'
+  '            raise OSError("Invalid chunk header") from e\n')]},
+    {'name': 'own-reader-parser-method-converts-error-itself', 'edits': [('serving.py',
+  '        return True\n'
+  '\n'
+  '    def read_chunk_len(self) -> int:\n'
+  '        try:\n'
+  '            line = self._rfile.readline().decode("latin1")\n'
+  '            _len = int(line.strip(), 16)\n'
+  '        except ValueError as e:\n'
+  '            raise OSError("Invalid chunk header") from e\n'
+  '        if _len < 0:\n'
+  '            raise OSError("Negative chunk length not allowed")\n',
+  '        return True\n'
+  '\n'
+  '    def _parse_size(self, line: bytes) -> int:\n'
+  '        try:\n'
+  '            return int(line.decode("latin1").strip(), 16)\n'
+  '        except ValueError as e:\n'
+  '            raise OSError("Invalid chunk header") from e\n'
+  '\n'
+  '    def read_chunk_len(self) -> int:\n'
+  '        try:\n'
+  '            raw = self._rfile.readline()\n'
+  '        except ValueError as e:\n'
+  '            raise OSError("Invalid chunk header") from e\n'
+  '        _len = self._parse_size(raw)\n'
+  '        if _len < 0:\n'
+  '            raise OSError("Negative chunk length not allowed")\n')]},
+    {'name': 'own-header-block-in-closure-helper-guard-in-writer', 'edits': [('serving.py',
+  '        chunk_response: bool = False\n'
+  '\n'
+  '        def write(data: bytes) -> None:\n'
+  '            nonlocal status_sent, headers_sent, chunk_response\n'
+  '            assert status_set is not None, "write() before start_response"\n'
+  '            assert headers_set is not None, "write() before start_response"\n'
+  '            if status_sent is None:\n'
+  '                status_sent = status_set\n'
+  '                headers_sent = headers_set\n'
+  '                try:\n'
+  '                    code_str, msg = status_sent.split(None, 1)\n'
+  '                except ValueError:\n'
+  '                    code_str, msg = status_sent, ""\n'
+  '                code = int(code_str)\n'
+  '                self.send_response(code, msg)\n'
+  '                header_keys = set()\n'
+  '                for key, value in headers_sent:\n'
+  '                    self.send_header(key, value)\n'
+  '                    header_keys.add(key.lower())\n'
+  '\n'
+  '                # Use chunked transfer encoding if there is no content\n'
+  '                # length. Do not use for 1xx and 204 responses. 304\n'
+  '                # responses and HEAD requests are also excluded, which\n'
+  '                # is the more conservative behavior and matches other\n'
+  '                # parts of the code.\n'
+  '                # https://httpwg.org/specs/rfc7230.html#rfc.section.3.3.1\n'
+  '                if (\n'
+  '                    not (\n'
+  '                        "content-length" in header_keys\n'
+  '                        or environ["REQUEST_METHOD"] == "HEAD"\n'
+  '                        or (100 <= code < 200)\n'
+  '                        or code in {204, 304}\n'
+  '                    )\n'
+  '                    and self.protocol_version >= "HTTP/1.1"\n'
+  '                ):\n'
+  '                    chunk_response = True\n'
+  '                    self.send_header("Transfer-Encoding", "chunked")\n'
+  '\n'
+  '                # Always close the connection. This disables HTTP/1.1\n'
+  "                # keep-alive connections. They aren't handled well by\n"
+  "                # Python's http.server because it doesn't know how to\n"
+  '                # drain the stream before the next request line.\n'
+  '                self.send_header("Connection", "close")\n'
+  '                self.end_headers()\n'
+  '\n'
+  '            assert isinstance(data, bytes), "applications must write bytes"\n',
+  '        chunk_response: bool = False\n'
+  '\n'
+  '        def send_status_and_headers() -> None:\n'
+  '            nonlocal status_sent, headers_sent, chunk_response\n'
+  '            status_sent = status_set\n'
+  '            headers_sent = headers_set\n'
+  '            try:\n'
+  '                code_str, msg = status_sent.split(None, 1)\n'
+  '            except ValueError:\n'
+  '                code_str, msg = status_sent, ""\n'
+  '            code = int(code_str)\n'
+  '            self.send_response(code, msg)\n'
+  '            header_keys = set()\n'
+  '            for key, value in headers_sent:\n'
+  '                self.send_header(key, value)\n'
+  '                header_keys.add(key.lower())\n'
+  '\n'
+  '            # Use chunked transfer encoding if there is no content\n'
+  '            # length. Do not use for 1xx and 204 responses. 304\n'
+  '            # responses and HEAD requests are also excluded, which\n'
+  '            # is the more conservative behavior and matches other\n'
+  '            # parts of the code.\n'
+  '            # https://httpwg.org/specs/rfc7230.html#rfc.section.3.3.1\n'
+  '            if (\n'
+  '                not (\n'
+  '                    "content-length" in header_keys\n'
+  '                    or environ["REQUEST_METHOD"] == "HEAD"\n'
+  '                    or (100 <= code < 200)\n'
+  '                    or code in {204, 304}\n'
+  '                )\n'
+  '                and self.protocol_version >= "HTTP/1.1"\n'
+  '            ):\n'
+  '                chunk_response = True\n'
+  '                self.send_header("Transfer-Encoding", "chunked")\n'
+  '\n'
+  '            # Always close the connection. This disables HTTP/1.1\n'
+  "            # keep-alive connections. They aren't handled well by\n"
+  "            # Python's http.server because it doesn't know how to\n"
+  '            # drain the stream before the next request line.\n'
+  '            self.send_header("Connection", "close")\n'
+  '            self.end_headers()\n'
+  '\n'
+  '        def write(data: bytes) -> None:\n'
+  '            assert status_set is not None, "write() before start_response"\n'
+  '            assert headers_set is not None, "write() before start_response"\n'
+  '            if status_sent is None:\n'
+  '                send_status_and_headers()\n'
+  '\n'
+  '            assert isinstance(data, bytes), "applications must write bytes"\n')]},
+    {'name': 'own-latch-tuple-other-order', 'edits': [('serving.py',
+  '            assert headers_set is not None, "write() before start_response"\n'
+  '            if status_sent is None:\n'
+  '                status_sent = status_set\n'
+  '                headers_sent = headers_set\n'
+  '                try:\n'
+  '                    code_str, msg = status_sent.split(None, 1)\n',
+  '            assert headers_set is not None, "write() before start_response"\n'
+  '            if status_sent is None:\n'
+  '                headers_sent, status_sent = headers_set, status_set\n'
+  '                try:\n'
+  '                    code_str, msg = status_sent.split(None, 1)\n')]},
+    {'name': 'own-setup-override-delegates', 'edits': [('serving.py',
+  '    def server_version(self) -> str:  # type: ignore\n        return self.server._server_version\n\n    def make_environ(self) -> WSGIEnvironment:\n',
+  '    def server_version(self) -> str:  # type: ignore\n        return self.server._server_version\n\n    def setup(self) -> None:\n        super().setup()\n\n    def make_environ(self) -> WSGIEnvironment:\n')]},
+]
+
+
+def _own_mut(name, expect, twin, old, new):
+    tw = next(t_ for t_ in _STRESS_OWN if t_["name"] == twin)
+    assert sum(n_.count(old) for _, _, n_ in tw["edits"]) == 1, (name, old)
+    return {"name": name, "expect": expect, "edits": [(f_, o_, n_.replace(old, new)) for f_, o_, n_ in tw["edits"]]}
+
+
+TWINS += _STRESS_OWN
+MUTANTS += [
+    _own_mut("own-parser-method-reads-decimal", "R19.3", "own-reader-multi-statement-parser-method", "return int(text.strip(), 16)", "return int(text.strip())"),
+    _own_mut("own-parser-method-lets-value-error-out", "R19.3", "own-reader-parser-method-converts-error-itself", 'return int(line.decode("latin1").strip(), 16)\n        except ValueError as e:', 'return int(line.decode("latin1").strip(), 16)\n        except TypeError as e:'),
+    _own_mut("own-closure-helper-chunks-304", "R19.1", "own-header-block-in-closure-helper-guard-in-writer", "or code in {204, 304}", "or code in {204}"),
+    _own_mut("own-closure-helper-guard-on-header-list", "R19.2", "own-header-block-in-closure-helper-guard-in-writer", "            if status_sent is None:\n                send_status_and_headers()\n", "            if not headers_sent:\n                send_status_and_headers()\n"),
+    _own_mut("own-latch-tuple-other-order-left-open", "R19.2", "own-latch-tuple-other-order", "headers_sent, status_sent = headers_set, status_set", "headers_sent, status_sent = headers_set, None"),
+    _own_mut("own-setup-override-unbuffers-first", "R19.5", "own-setup-override-delegates", "        super().setup()\n", "        self.rbufsize = 0\n        super().setup()\n"),
+]
+
+# ---- round 6b (stress, second author): different restructurings of the same functions ----
+_STRESS_TWINS_B = [
+    {'name': 'stress-b1-reader-multi-statement-parse-method', 'edits': [('serving.py',
+  '        return True\n'
+  '\n'
+  '    def read_chunk_len(self) -> int:\n'
+  '        try:\n'
+  '            line = self._rfile.readline().decode("latin1")\n'
+  '            _len = int(line.strip(), 16)\n'
+  '        except ValueError as e:\n'
+  '            raise OSError("Invalid chunk header") from e\n',
+  '        return True\n'
+  '\n'
+  '    def _parse_size(self, line: bytes) -> int:\n'
+  '        """Parse the hexadecimal size out of a raw chunk header line."""\n'
+  '        text = line.decode("latin1")\n'
+  '        text = text.strip()\n'
+  '        return int(text, 16)\n'
+  '\n'
+  '    def read_chunk_len(self) -> int:\n'
+  '        try:\n'
+  '            _len = self._parse_size(self._rfile.readline())\n'
+  '        except ValueError as e:\n'
+  '            raise OSError("Invalid chunk header") from e\n')]},
+    {'name': 'stress-b2-reader-module-function-reads-and-converts', 'edits': [('serving.py',
+  '\n\nclass DechunkedInput(io.RawIOBase):\n    """An input stream that handles Transfer-Encoding \'chunked\'"""\n',
+  '\n'
+  '\n'
+  'def _read_chunk_header(rfile: t.IO[bytes]) -> int:\n'
+  '    """Read one chunk header line from ``rfile`` and return the size it\n'
+  '    announces. A line that is not a hexadecimal number is an ``OSError``.\n'
+  '    """\n'
+  '    try:\n'
+  '        line = rfile.readline().decode("latin1")\n'
+  '        return int(line.strip(), 16)\n'
+  '    except ValueError as e:\n'
+  '        raise OSError("Invalid chunk header") from e\n'
+  '\n'
+  '\n'
+  'class DechunkedInput(io.RawIOBase):\n'
+  '    """An input stream that handles Transfer-Encoding \'chunked\'"""\n'),
+ ('serving.py',
+  '\n'
+  '    def read_chunk_len(self) -> int:\n'
+  '        try:\n'
+  '            line = self._rfile.readline().decode("latin1")\n'
+  '            _len = int(line.strip(), 16)\n'
+  '        except ValueError as e:\n'
+  '            raise OSError("Invalid chunk header") from e\n'
+  '        if _len < 0:\n'
+  '            raise OSError("Negative chunk length not allowed")\n',
+  '\n    def read_chunk_len(self) -> int:\n        _len = _read_chunk_header(self._rfile)\n        if _len < 0:\n            raise OSError("Negative chunk length not allowed")\n')]},
+    {'name': 'stress-b3-readinto-while-true-break', 'edits': [('serving.py',
+  '    def readinto(self, buf: bytearray) -> int:  # type: ignore\n        read = 0\n        while not self._done and read < len(buf):\n            if self._len == 0:\n                # This is the first chunk or we fully consumed the previous\n',
+  '    def readinto(self, buf: bytearray) -> int:  # type: ignore\n'
+  '        read = 0\n'
+  '        while True:\n'
+  '            # Stop once the final chunk was seen or buf has been filled.\n'
+  '            if self._done or read >= len(buf):\n'
+  '                break\n'
+  '\n'
+  '            if self._len == 0:\n'
+  '                # This is the first chunk or we fully consumed the previous\n')]},
+    {'name': 'stress-b4-readinto-min-as-conditional-slice-end-local', 'edits': [('serving.py',
+  '                # buffer. If this operation fully consumes the chunk, this will\n'
+  '                # reset self._len to 0.\n'
+  '                n = min(len(buf), self._len)\n'
+  '\n'
+  '                # If (read + chunk size) becomes more than len(buf), buf will\n',
+  '                # buffer. If this operation fully consumes the chunk, this will\n'
+  '                # reset self._len to 0.\n'
+  '                n = self._len if self._len < len(buf) else len(buf)\n'
+  '\n'
+  '                # If (read + chunk size) becomes more than len(buf), buf will\n'),
+ ('serving.py',
+  '                    raise OSError("Unexpected end of chunked data")\n\n                buf[read : read + n] = data\n                self._len -= n\n                read += n\n\n            if self._len == 0:\n',
+  '                    raise OSError("Unexpected end of chunked data")\n\n                end = read + n\n                buf[read:end] = data\n                read = end\n                self._len -= n\n\n            if self._len == 0:\n')]},
+    {'name': 'stress-b5-readinto-done-test-nested-terminator-unrolled', 'edits': [('serving.py',
+  '                self._len = self.read_chunk_len()\n'
+  '\n'
+  '            if self._len == 0:\n'
+  '                # Found the final chunk of size 0. The stream is now exhausted,\n'
+  '                # but there is still a final newline that should be consumed\n'
+  '                self._done = True\n'
+  '\n'
+  '            if self._len > 0:\n',
+  '                self._len = self.read_chunk_len()\n'
+  '\n'
+  '                if self._len == 0:\n'
+  '                    # Found the final chunk of size 0. The stream is now\n'
+  '                    # exhausted, but there is still a final newline that\n'
+  '                    # should be consumed\n'
+  '                    self._done = True\n'
+  '\n'
+  '            if self._len > 0:\n'),
+ ('serving.py',
+  '                # consumed. This also applies to the 0-sized final chunk\n'
+  '                terminator = self._rfile.readline()\n'
+  '                if terminator not in (b"\\n", b"\\r\\n", b"\\r"):\n'
+  '                    raise OSError("Missing chunk terminating newline")\n'
+  '\n',
+  '                # consumed. This also applies to the 0-sized final chunk\n'
+  '                terminator = self._rfile.readline()\n'
+  '                if (\n'
+  '                    terminator != b"\\n"\n'
+  '                    and terminator != b"\\r\\n"\n'
+  '                    and terminator != b"\\r"\n'
+  '                ):\n'
+  '                    raise OSError("Missing chunk terminating newline")\n'
+  '\n')]},
+    {'name': 'stress-b6-write-should-chunk-predicate', 'edits': [('serving.py',
+  '        chunk_response: bool = False\n\n        def write(data: bytes) -> None:\n            nonlocal status_sent, headers_sent, chunk_response\n',
+  '        chunk_response: bool = False\n'
+  '\n'
+  '        def should_chunk(code: int, header_keys: set[str]) -> bool:\n'
+  '            # Use chunked transfer encoding if there is no content\n'
+  '            # length. Do not use for 1xx and 204 responses. 304\n'
+  '            # responses and HEAD requests are also excluded, which\n'
+  '            # is the more conservative behavior and matches other\n'
+  '            # parts of the code.\n'
+  '            # https://httpwg.org/specs/rfc7230.html#rfc.section.3.3.1\n'
+  '            return (\n'
+  '                not (\n'
+  '                    "content-length" in header_keys\n'
+  '                    or environ["REQUEST_METHOD"] == "HEAD"\n'
+  '                    or (100 <= code < 200)\n'
+  '                    or code in {204, 304}\n'
+  '                )\n'
+  '                and self.protocol_version >= "HTTP/1.1"\n'
+  '            )\n'
+  '\n'
+  '        def write(data: bytes) -> None:\n'
+  '            nonlocal status_sent, headers_sent, chunk_response\n'),
+ ('serving.py',
+  '                    header_keys.add(key.lower())\n'
+  '\n'
+  '                # Use chunked transfer encoding if there is no content\n'
+  '                # length. Do not use for 1xx and 204 responses. 304\n'
+  '                # responses and HEAD requests are also excluded, which\n'
+  '                # is the more conservative behavior and matches other\n'
+  '                # parts of the code.\n'
+  '                # https://httpwg.org/specs/rfc7230.html#rfc.section.3.3.1\n'
+  '                if (\n'
+  '                    not (\n'
+  '                        "content-length" in header_keys\n'
+  '                        or environ["REQUEST_METHOD"] == "HEAD"\n'
+  '                        or (100 <= code < 200)\n'
+  '                        or code in {204, 304}\n'
+  '                    )\n'
+  '                    and self.protocol_version >= "HTTP/1.1"\n'
+  '                ):\n'
+  '                    chunk_response = True\n'
+  '                    self.send_header("Transfer-Encoding", "chunked")\n',
+  '                    header_keys.add(key.lower())\n\n                if should_chunk(code, header_keys):\n                    chunk_response = True\n                    self.send_header("Transfer-Encoding", "chunked")\n')]},
+    {'name': 'stress-b7-write-use-chunked-local-branches-merged-format-x', 'edits': [('serving.py',
+  '                # parts of the code.\n                # https://httpwg.org/specs/rfc7230.html#rfc.section.3.3.1\n                if (\n                    not (\n                        "content-length" in header_keys\n',
+  '                # parts of the code.\n                # https://httpwg.org/specs/rfc7230.html#rfc.section.3.3.1\n                use_chunked = (\n                    not (\n                        "content-length" in header_keys\n'),
+ ('serving.py',
+  '                    )\n                    and self.protocol_version >= "HTTP/1.1"\n                ):\n                    chunk_response = True\n                    self.send_header("Transfer-Encoding", "chunked")\n',
+  '                    )\n'
+  '                    and self.protocol_version >= "HTTP/1.1"\n'
+  '                )\n'
+  '\n'
+  '                if use_chunked:\n'
+  '                    chunk_response = True\n'
+  '                    self.send_header("Transfer-Encoding", "chunked")\n'),
+ ('serving.py',
+  '\n'
+  '            if data:\n'
+  '                if chunk_response:\n'
+  '                    self.wfile.write(hex(len(data))[2:].encode())\n'
+  '                    self.wfile.write(b"\\r\\n")\n'
+  '\n'
+  '                self.wfile.write(data)\n'
+  '\n'
+  '                if chunk_response:\n'
+  '                    self.wfile.write(b"\\r\\n")\n'
+  '\n',
+  '\n'
+  '            if data:\n'
+  '                if not chunk_response:\n'
+  '                    self.wfile.write(data)\n'
+  '                else:\n'
+  '                    self.wfile.write(f"{len(data):x}".encode())\n'
+  '                    self.wfile.write(b"\\r\\n")\n'
+  '                    self.wfile.write(data)\n'
+  '                    self.wfile.write(b"\\r\\n")\n'
+  '\n')]},
+    {'name': 'stress-b8-execute-drain-helper-start-response-tuple', 'edits': [('serving.py',
+  '            elif headers_set:\n                raise AssertionError("Headers already set")\n            status_set = status\n            headers_set = headers\n            return write\n\n        def execute(app: WSGIApplication) -> None:\n',
+  '            elif headers_set:\n'
+  '                raise AssertionError("Headers already set")\n'
+  '            status_set, headers_set = status, headers\n'
+  '            return write\n'
+  '\n'
+  '        def drain_input() -> None:\n'
+  '            # Check for any remaining data in the read socket, and discard it. This\n'
+  '            # will read past request.max_content_length, but lets the client see a\n'
+  '            # 413 response instead of a connection reset failure. If we supported\n'
+  '            # keep-alive connections, this naive approach would break by reading the\n'
+  '            # next request line. Since we know that write (above) closes every\n'
+  '            # connection we can read everything.\n'
+  '            selector = selectors.DefaultSelector()\n'
+  '            selector.register(self.connection, selectors.EVENT_READ)\n'
+  '            total_size = 0\n'
+  '            total_reads = 0\n'
+  '\n'
+  '            # A timeout of 0 tends to fail because a client needs a small amount of\n'
+  '            # time to continue sending its data.\n'
+  '            while selector.select(timeout=0.01):\n'
+  '                # Only read 10MB into memory at a time.\n'
+  '                data = self.rfile.read(10_000_000)\n'
+  '                total_size += len(data)\n'
+  '                total_reads += 1\n'
+  '\n'
+  '                # Stop reading on no data, >=10GB, or 1000 reads. If a client sends\n'
+  "                # more than that, they'll get a connection reset failure.\n"
+  '                if not data or total_size >= 10_000_000_000 or total_reads > 1000:\n'
+  '                    break\n'
+  '\n'
+  '            selector.close()\n'
+  '\n'
+  '        def execute(app: WSGIApplication) -> None:\n'),
+ ('serving.py',
+  '                    self.wfile.write(b"0\\r\\n\\r\\n")\n'
+  '            finally:\n'
+  '                # Check for any remaining data in the read socket, and discard it. This\n'
+  '                # will read past request.max_content_length, but lets the client see a\n'
+  '                # 413 response instead of a connection reset failure. If we supported\n'
+  '                # keep-alive connections, this naive approach would break by reading the\n'
+  '                # next request line. Since we know that write (above) closes every\n'
+  '                # connection we can read everything.\n'
+  '                selector = selectors.DefaultSelector()\n'
+  '                selector.register(self.connection, selectors.EVENT_READ)\n'
+  '                total_size = 0\n'
+  '                total_reads = 0\n'
+  '\n'
+  '                # A timeout of 0 tends to fail because a client needs a small amount of\n'
+  '                # time to continue sending its data.\n'
+  '                while selector.select(timeout=0.01):\n'
+  '                    # Only read 10MB into memory at a time.\n'
+  '                    data = self.rfile.read(10_000_000)\n'
+  '                    total_size += len(data)\n'
+  '                    total_reads += 1\n'
+  '\n'
+  '                    # Stop reading on no data, >=10GB, or 1000 reads. If a client sends\n'
+  "                    # more than that, they'll get a connection reset failure.\n"
+  '                    if not data or total_size >= 10_000_000_000 or total_reads > 1000:\n'
+  '                        break\n'
+  '\n'
+  '                selector.close()\n'
+  '\n'
+  '                if hasattr(application_iter, "close"):\n',
+  '                    self.wfile.write(b"0\\r\\n\\r\\n")\n            finally:\n                drain_input()\n\n                if hasattr(application_iter, "close"):\n')]},
+    {'name': 'stress-b9-environ-underscore-guard-flipped-name-steps', 'edits': [('serving.py',
+  '\n'
+  '        for key, value in self.headers.items():\n'
+  '            if "_" in key:\n'
+  '                continue\n'
+  '\n'
+  '            key = key.upper().replace("-", "_")\n'
+  '            value = value.replace("\\r\\n", "")\n'
+  '            if key not in ("CONTENT_TYPE", "CONTENT_LENGTH"):\n'
+  '                key = f"HTTP_{key}"\n'
+  '                if key in environ:\n'
+  '                    value = f"{environ[key]},{value}"\n'
+  '            environ[key] = value\n'
+  '\n'
+  '        if environ.get("HTTP_TRANSFER_ENCODING", "").strip().lower() == "chunked":\n',
+  '\n'
+  '        for key, value in self.headers.items():\n'
+  '            # Header names with underscores are dropped, they would be\n'
+  '            # ambiguous once dashes are mapped to underscores.\n'
+  '            if "_" not in key:\n'
+  '                name = key.upper()\n'
+  '                name = name.replace("-", "_")\n'
+  '                value = value.replace("\\r\\n", "")\n'
+  '                if name not in ("CONTENT_TYPE", "CONTENT_LENGTH"):\n'
+  '                    name = f"HTTP_{name}"\n'
+  '                    if name in environ:\n'
+  '                        value = f"{environ[name]},{value}"\n'
+  '                environ[name] = value\n'
+  '\n'
+  '        if environ.get("HTTP_TRANSFER_ENCODING", "").strip().lower() == "chunked":\n')]},
+    {'name': 'stress-b10-environ-unprefixed-frozenset-items-hoisted-join', 'edits': [('serving.py',
+  '\nLISTEN_QUEUE = 128\n\n_TSSLContextArg = t.Optional[\n',
+  '\nLISTEN_QUEUE = 128\n\n# CGI variables that are copied from request headers without the\n# ``HTTP_`` prefix.\n_UNPREFIXED_HEADER_VARS = frozenset({"CONTENT_TYPE", "CONTENT_LENGTH"})\n\n_TSSLContextArg = t.Optional[\n'),
+ ('serving.py',
+  '        }\n\n        for key, value in self.headers.items():\n            if "_" in key:\n                continue\n',
+  '        }\n\n        header_items = self.headers.items()\n\n        for key, value in header_items:\n            if "_" in key:\n                continue\n'),
+ ('serving.py',
+  '            key = key.upper().replace("-", "_")\n'
+  '            value = value.replace("\\r\\n", "")\n'
+  '            if key not in ("CONTENT_TYPE", "CONTENT_LENGTH"):\n'
+  '                key = f"HTTP_{key}"\n'
+  '                if key in environ:\n'
+  '                    value = f"{environ[key]},{value}"\n'
+  '            environ[key] = value\n'
+  '\n',
+  '            key = key.upper().replace("-", "_")\n'
+  '            value = value.replace("\\r\\n", "")\n'
+  '            if key not in _UNPREFIXED_HEADER_VARS:\n'
+  '                key = f"HTTP_{key}"\n'
+  '                if key in environ:\n'
+  '                    value = ",".join((environ[key], value))\n'
+  '            environ[key] = value\n'
+  '\n')]},
+    {'name': 'stress-b11-environ-transfer-encoding-try-keyerror-stores-swapped', 'edits': [('serving.py',
+  '            environ[key] = value\n'
+  '\n'
+  '        if environ.get("HTTP_TRANSFER_ENCODING", "").strip().lower() == "chunked":\n'
+  '            environ["wsgi.input_terminated"] = True\n'
+  '            environ["wsgi.input"] = DechunkedInput(environ["wsgi.input"])\n'
+  '\n'
+  '        # Per RFC 2616, if the URL is absolute, use that as the host.\n',
+  '            environ[key] = value\n'
+  '\n'
+  '        try:\n'
+  '            transfer_encoding = environ["HTTP_TRANSFER_ENCODING"]\n'
+  '        except KeyError:\n'
+  '            transfer_encoding = ""\n'
+  '\n'
+  '        if transfer_encoding.strip().lower() == "chunked":\n'
+  '            environ["wsgi.input"] = DechunkedInput(self.rfile)\n'
+  '            environ["wsgi.input_terminated"] = True\n'
+  '\n'
+  '        # Per RFC 2616, if the URL is absolute, use that as the host.\n')]},
+    {'name': 'stress-b12-handle-uses-ssl-local-init-tests-flipped', 'edits': [('serving.py',
+  '            self.connection_dropped(e)\n        except Exception as e:\n            if self.server.ssl_context is not None and is_ssl_error(e):\n                self.log_error("SSL error occurred: %s", e)\n            else:\n',
+  '            self.connection_dropped(e)\n'
+  '        except Exception as e:\n'
+  '            uses_ssl = self.server.ssl_context is not None\n'
+  '\n'
+  '            if uses_ssl and is_ssl_error(e):\n'
+  '                self.log_error("SSL error occurred: %s", e)\n'
+  '            else:\n'),
+ ('serving.py',
+  '        )\n\n        if fd is None:\n            # No existing socket descriptor, do bind_and_activate=True.\n            try:\n',
+  '        )\n'
+  '\n'
+  '        if fd is not None:\n'
+  '            # TCPServer automatically opens a socket even if bind_and_activate is False.\n'
+  '            # Close it to silence a ResourceWarning.\n'
+  '            self.server_close()\n'
+  '\n'
+  '            # Use the passed in socket directly.\n'
+  '            self.socket = socket.fromfd(fd, address_family, socket.SOCK_STREAM)\n'
+  '            self.server_address = self.socket.getsockname()\n'
+  '        else:\n'
+  '            # No existing socket descriptor, do bind_and_activate=True.\n'
+  '            try:\n'),
+ ('serving.py',
+  '                self.server_close()\n'
+  '                raise\n'
+  '        else:\n'
+  '            # TCPServer automatically opens a socket even if bind_and_activate is False.\n'
+  '            # Close it to silence a ResourceWarning.\n'
+  '            self.server_close()\n'
+  '\n'
+  '            # Use the passed in socket directly.\n'
+  '            self.socket = socket.fromfd(fd, address_family, socket.SOCK_STREAM)\n'
+  '            self.server_address = self.socket.getsockname()\n'
+  '\n'
+  '        if address_family != af_unix:\n',
+  '                self.server_close()\n                raise\n\n        if address_family != af_unix:\n'),
+ ('serving.py',
+  '            self.port = self.server_address[1]\n\n        if ssl_context is not None:\n            if isinstance(ssl_context, tuple):\n                ssl_context = load_ssl_context(*ssl_context)\n',
+  '            self.port = self.server_address[1]\n'
+  '\n'
+  '        if ssl_context is None:\n'
+  '            self.ssl_context: ssl.SSLContext | None = None\n'
+  '        else:\n'
+  '            if isinstance(ssl_context, tuple):\n'
+  '                ssl_context = load_ssl_context(*ssl_context)\n'),
+ ('serving.py',
+  '\n            self.socket = ssl_context.wrap_socket(self.socket, server_side=True)\n            self.ssl_context: ssl.SSLContext | None = ssl_context\n        else:\n            self.ssl_context = None\n\n        import importlib.metadata\n',
+  '\n            self.socket = ssl_context.wrap_socket(self.socket, server_side=True)\n            self.ssl_context = ssl_context\n\n        import importlib.metadata\n')]},
+]
+
+
+def _stress_mut_b(name, expect, twin, old, new):
+    tw = next(t_ for t_ in _STRESS_TWINS_B if t_["name"].startswith(twin))
+    assert sum(n_.count(old) for _, _, n_ in tw["edits"]) == 1, (name, old)
+    return {"name": name, "expect": expect, "edits": [(f_, o_, n_.replace(old, new)) for f_, o_, n_ in tw["edits"]]}
+
+
+TWINS += _STRESS_TWINS_B
+MUTANTS += [
+    _stress_mut_b("stress-b2-module-reader-parses-octal", "R19.3", "stress-b2-", "return int(line.strip(), 16)", "return int(line.strip(), 8)"),
+    _stress_mut_b("stress-b2-module-reader-lets-value-error-out", "R19.3", "stress-b2-", "    except ValueError as e:\n        raise OSError", "    except UnicodeError as e:\n        raise OSError"),
+    _stress_mut_b("stress-b3-while-true-header-read-with-a-byte-left", "R19.3", "stress-b3-", "break\n\n            if self._len == 0:\n", "break\n\n            if self._len <= 1:\n"),
+    _stress_mut_b("stress-b5-unrolled-terminator-test-admits-anything-but-lf", "R19.3", "stress-b5-", '                    and terminator != b"\\r\\n"\n', ""),
+    _stress_mut_b("stress-b6-predicate-chunks-304", "R19.1", "stress-b6-", "or code in {204, 304}", "or code in {204}"),
+    _stress_mut_b("stress-b11-missing-header-reads-as-chunked", "R19.4", "stress-b11-", '        except KeyError:\n            transfer_encoding = ""\n', '        except KeyError:\n            transfer_encoding = "chunked"\n'),
+]
